@@ -435,7 +435,11 @@ def fs_term(fs):
 
 def item_term(it):
     if it['kind'] == 'msg':
-        return '(IMsg %s %s %s %s)' % (pv(it['m']), coqio.copt(it.get('pk'), lambda x: x),
+        m = it['m']
+        # the model only looks at the TYPE of a raw message (dict / bytes / anything else); what the two
+        # loaders make of its content is the oracle pair pk, js - so raw bytes and text are not spelled out
+        mt = '(PBytes [])' if isinstance(m, bytes) else '(PStr [])' if isinstance(m, str) else pv(m)
+        return '(IMsg %s %s %s %s)' % (mt, coqio.copt(it.get('pk'), lambda x: x),
                                        coqio.copt(it.get('js'), lambda x: x), fs_term(it.get('fs', ())))
     if it['kind'] == 'raise':
         return '(IRaise %s)' % it['e']
